@@ -125,6 +125,22 @@ def run(tier, seed, replay):
         ops = hist.gen_ops(rng, g, rng.randrange(4, 14), mix={'W': 55, 'D': 15, 'F': 15, 'R': 10, 'K': 5}, flush_end=False)
         ops = [o for o in ops if o[0] != 'O']
         image, init = None, None
+        if k % 4 == 1:
+            # cache pressure: more L2 slices in use than the cache holds and no flush in between, so loading a
+            # slice evicts a dirty one (write-back inside the operation)
+            cbx = rng.choice([9, 10])
+            se = 512 // 8
+            nsl = rng.choice([3, 4, 6])
+            g = hist.Geom(cbx, rng.choice([2, 4, 6]), (nsl * se) << cbx, 9, (9, 2 << 9), (9, rng.choice([2, 8]) << 9), punch=1)
+            ops = []
+            tag = 1
+            for _ in range(rng.randrange(4, 10)):
+                sl = rng.randrange(0, nsl)
+                c = sl * se + rng.randrange(0, se)
+                ops.append(('W', c * g.cs, rng.choice([512, g.cs]), tag))
+                tag += 1
+                if rng.random() < 0.15:
+                    ops.append(('R', c * g.cs, g.cs))
         if k % 3 == 2:
             # independently built image: compressed / zero / preallocated clusters, free clusters with stale content
             import foreign
